@@ -154,7 +154,45 @@ BEST = dict(
     cover=["return"],
 )
 
-CONTRACTS = [BEST, LBM, LMAJ]
+# ------------------------------------------------------------------------------------------------ RallyRepository.update: the selected branch is really checked out
+GIT_FAIL = [dict(returns="none"), dict(raises="SupplyError")]
+REPO_UPDATE = dict(
+    target="esrally/utils/repo.py::RallyRepository.update",
+    prop="C15",
+    self_type="obj[RallyRepository]",
+    params={"distribution_version": "any"},
+    fields={"RallyRepository.remote": "bool", "RallyRepository.repo_dir": "str", "RallyRepository.logger": "any", "RallyRepository.revision": "any", "RallyRepository.resource_name": "str",
+            "SupplyError.message": "any"},
+    opaque={"BM": dict(names=["bs", "v"], args=["list[str]", "any"], ret="opt[str]")},
+    externals={
+        "git.branches": dict(event="branches", event_kwargs=["remote"], outcomes=[dict(returns="list[str]"), dict(raises="SupplyError")]),
+        "versions.best_match": dict(returns="opt[str]", pure=True, uf="BM"),  # under contract above
+        "git.checkout": dict(event="checkout", event_kwargs=["branch"], outcomes=GIT_FAIL),
+        "git.rebase": dict(event="rebase", outcomes=GIT_FAIL),
+        "git.head_revision": dict(returns="any"),
+        "git.current_branch": dict(event="current_branch", returns="str"),
+        "self._find_matching_tag": dict(event="find_tag", returns="opt[str]"),
+        "console.warn": dict(drop=True),
+        "sys.exc_info": dict(returns="any"),
+    },
+    modifies=["self"],
+    only_fields={"self": ["revision"]},
+    ensures=[
+        # a normal return means: no git checkout failed on the way (a branch switch that did not happen is never swallowed) ...
+        "forall(lambda k: implies(0 <= k and k < nev(), evk(k) != 'checkout!' and evk(k) != 'branches!'))",
+        # ... and with a remote whose branches contain a match, exactly that branch was checked out (and a rebase attempted, whose failure alone is tolerated)
+        "implies(self.remote and evk(0) == 'branches' and bool(BM(eva(0, 0, 'list[str]'), distribution_version)), "
+        "nev() == 3 and evk(1) == 'checkout' and eva(1, 2, 'str') == BM(eva(0, 0, 'list[str]'), distribution_version) and (evk(2) == 'rebase' or evk(2) == 'rebase!'))",
+    ],
+    raises={
+        # every git failure other than the tolerated rebase surfaces as a DataError; no local branch / tag at all is a SystemSetupError
+        "DataError": dict(ensures=["evk(nev() - 1) == 'checkout!' or evk(nev() - 1) == 'branches!'"]),
+        "SystemSetupError": dict(ensures=["evk(nev() - 1) == 'find_tag' and not bool(eva(nev() - 1, 0, 'opt[str]'))"]),
+    },
+    cover=["return", "raise:DataError", "raise:SystemSetupError"],
+)
+
+CONTRACTS = [BEST, LBM, LMAJ, REPO_UPDATE]
 ASSUMPTIONS = [
     "regular expressions VERSIONS / VERSIONS_OPTIONAL and components() are represented by the spec functions ISVER/CMAJ/CMIN/CPAT/CSUF with the scheme axioms (non-negative components, no patch without minor, suffix only with patch); NOT proved, cross-checked by enumeration in the thorough tier",
     "f-string renderings of versions are uninterpreted functions of their integer arguments",
